@@ -13,6 +13,7 @@ func TestCheck(t *testing.T) {
 	r := ev.Start("C06")
 	defer r.Finish()
 	r.SetRule("stepped histories of RPCs against InMemoryBuildQueue on a virtual clock, generated from VERIF_SEED and the case index; after every step every response/stream is compared with an executable reference model and the structural hook walks all queues; a case is non-trivial if it hit at least one named situation; distinct = distinct hash of (step kinds, observed stream messages)")
+	sched.DeclareFloors(r, "C06")
 	sched.RunStepped(r, "C06", r.Pick(150, 3000))
 	if r.ReplayFile() == "" {
 		sched.RunStress(r, "C06", r.Pick(6, 120))
